@@ -161,7 +161,10 @@ func (w *Walker) Walk(
 		)
 		w.cancelAll()
 
-		if w.failFastTriggered {
+		w.doneMutex.Lock()
+		failFastTriggered := w.failFastTriggered
+		w.doneMutex.Unlock()
+		if failFastTriggered {
 			return w.completions, nil
 		} else {
 			return w.completions, ctx.Err()
